@@ -64,7 +64,10 @@ func Tokenize(s string) (toks Tokens) {
 			if tok.Offset == -1 {
 				tok.Offset = i
 			}
-			tok.Text += string(r)
+			// Append the bytes of the input rather than the decoded rune: an invalid
+			// UTF-8 byte decodes to U+FFFD, whose encoding is three bytes long, and
+			// the token text would no longer be the text found at its offset.
+			tok.Text += s[i : i+size]
 		}
 		i += size
 	}
